@@ -163,15 +163,30 @@ def run(ctx):
         ev = Evaluator(mod, inline=True, call_policy=pol)
         out = ev.call_function("b_to_cell", [X])
         is_ci = isinstance(out, Opaque) and out.base == "cell_invert(...)" and not out.idx
-        ctx.check(is_ci and "arg" in seen, "C01:inverse:%s.b_to_cell:cell_invert" % short,
-                  "b_to_cell does not return cell_invert(reciprocal cell)", core.loc(mod, fn))
+        benv = dict(genv)
+        for key in list(benv):
+            if key.startswith("g"):
+                benv[key] = benv[key] / (tau * tau)
+        if not (is_ci and "arg" in seen):
+            # the module's cell_invert is not called by that name (one shared implementation behind both public names, say):
+            # by value -- b_to_cell(X) against the module's own cell_invert of the reference reciprocal cell
+            seen.pop("arg", None)
+            refcell = Arr([N.ref(R.CELL_FROM_COLUMNS[i], benv) for i in range(6)])
+            try:
+                got_ = fresh().call_function("b_to_cell", [X])
+                want_ = fresh().call_function("cell_invert", [refcell])
+                got_ = got_.data if isinstance(got_, Arr) else list(got_)
+                want_ = want_.data if isinstance(want_, Arr) else list(want_)
+                is_ci = len(got_) == 6 and len(want_) == 6 and all(N.rat_equal(scalar(a_), scalar(b_)) for a_, b_ in zip(got_, want_))
+            except (AnalysisError, TypeError):
+                is_ci = False
+            ctx.check(is_ci, "C01:inverse:%s.b_to_cell:cell_invert" % short,
+                      "b_to_cell(B) is not the module's cell_invert of the cell read from B/tau", core.loc(mod, fn))
+        else:
+            ctx.check(True, "C01:inverse:%s.b_to_cell:cell_invert" % short, "", core.loc(mod, fn))
         if "arg" in seen:
             arg = seen["arg"]
             arg = arg.data if isinstance(arg, Arr) else list(arg)
-            benv = dict(genv)
-            for key in list(benv):
-                if key.startswith("g"):
-                    benv[key] = benv[key] / (tau * tau)
             for i in range(min(6, len(arg))):
                 want = N.ref(R.CELL_FROM_COLUMNS[i], benv)
                 ctx.check(N.rat_equal(arg[i], want), "C01:inverse:%s.b_to_cell[%d]" % (short, i),
